@@ -907,7 +907,70 @@ class Walker(object):
         r = state.facts.get(t)
         if r is not None:
             return r
-        return tm.subst(t, state.facts)
+        r = tm.subst(t, state.facts)
+        if not r.is_const() and r.bits == 1:
+            b = self.refine_bool(state, r)
+            if b is not None:
+                return b
+        return r
+
+    def range_under(self, state, x):
+        """unsigned range of term x refined by the recorded comparisons of x with constants"""
+        lo, hi = tm.urange(x)
+        for ft, fv in state.facts.items():
+            if ft.op == "ult" and fv.is_const():
+                a, b = ft.args
+                if a is x and b.is_const():
+                    if fv.val:
+                        hi = min(hi, b.val - 1)
+                    else:
+                        lo = max(lo, b.val)
+                elif b is x and a.is_const():
+                    if fv.val:
+                        lo = max(lo, a.val + 1)
+                    else:
+                        hi = min(hi, a.val)
+        ex = state.nfacts.get(x, ())
+        while lo in ex and lo < hi:
+            lo += 1
+        while hi in ex and hi > lo:
+            hi -= 1
+        return lo, hi
+
+    def refine_bool(self, state, d):
+        """decide a comparison with a constant from the interval its operand is known to lie in"""
+        if d.op == "ult":
+            a, b = d.args
+            if b.is_const() and not a.is_const():
+                lo, hi = self.range_under(state, a)
+                if hi < b.val:
+                    return tm.TRUE
+                if lo >= b.val:
+                    return tm.FALSE
+            elif a.is_const() and not b.is_const():
+                lo, hi = self.range_under(state, b)
+                if lo > a.val:
+                    return tm.TRUE
+                if hi <= a.val:
+                    return tm.FALSE
+        elif d.op == "usubo" and d.args[1].is_const() and not d.args[0].is_const():
+            lo, hi = self.range_under(state, d.args[0])
+            if lo >= d.args[1].val:
+                return tm.FALSE
+            if hi < d.args[1].val:
+                return tm.TRUE
+        elif d.op == "uaddo" and d.args[1].is_const() and not d.args[0].is_const():
+            lo, hi = self.range_under(state, d.args[0])
+            if hi + d.args[1].val <= tm.mask(d.args[0].bits):
+                return tm.FALSE
+        elif d.op in ("eq", "ne") and d.args[1].is_const():
+            lo, hi = self.range_under(state, d.args[0])
+            k = d.args[1].val
+            if k < lo or k > hi or k in state.nfacts.get(d.args[0], ()):
+                return tm.FALSE if d.op == "eq" else tm.TRUE
+            if lo == hi == k:
+                return tm.TRUE if d.op == "eq" else tm.FALSE
+        return None
 
     # ------------------------------------------------------------ calls
     def callee_of(self, state, frame, term):
@@ -1205,6 +1268,10 @@ class Walker(object):
                 succ.append(s2)
             # otherwise
             feasible_other = True
+            # a recorded bound `d < K` (e.g. a preceding assert!) may already exclude every remaining value
+            for ft, fv in st.facts.items():
+                if ft.op == "ult" and ft.args[0] is d and ft.args[1].is_const() and fv.val == 1:
+                    hi = min(hi, ft.args[1].val - 1)
             if d.bits == 1 and len(set(arm_vals)) == 2:
                 feasible_other = False
             elif hi - lo + 1 <= len(set(a for a in arm_vals if lo <= a <= hi)):
@@ -1264,6 +1331,22 @@ class Walker(object):
             fr.block = t["t"]
             return None
         if k == "drop":
+            # user Drop impls run (RAII guards); drop glue of fields is not modelled
+            pty = self.place_ty(fr, t["place"])
+            if pty[0] == "adt":
+                for im, item in self.prog.impl_candidates("core::ops::drop::Drop::drop"):
+                    env = {}
+                    if unify(im["self_ty"], pty, env):
+                        dfn = self.prog.fns.get(item)
+                        if dfn is not None and dfn.local:
+                            obj, proj = self.resolve_place(st, fr, t["place"])
+                            cur = self.load(st, obj, proj)
+                            if cur is UNINIT or isinstance(cur, PartialAgg):
+                                break
+                            tmp = ("droptmp", st.nfid, fr.block)
+                            st.store[tmp] = UNIT
+                            self.push_frame(st, dfn, env, [Ref(obj, proj, True)], (tmp, ()), t["t"], t.get("span"))
+                            return None
             fr.block = t["t"]
             return None
         if k == "unreachable":
@@ -1307,8 +1390,10 @@ class Walker(object):
                     return self.enter(st, fr, fn2, genv2, spread, (dest_obj, dest_proj), t)
                 return self.do_effect(st, fr, target.path, spread, t, dest_obj, dest_proj, dest_ty)
         fn, genv, rpath = self.resolve(fr, path, targs, f)
-        # builtin models take priority
+        # builtin models take priority, unless the query asked for the call to be an opaque effect
         b = _BUILTINS.get(_builtin_key(rpath)) or _BUILTINS.get(_builtin_key(path))
+        if rpath in self.opaque_paths or path in self.opaque_paths:
+            b = None
         if b is not None:
             r = b(self, st, fr, rpath, targs, args, dest_ty)
             if r is not NOT_HANDLED:
